@@ -100,6 +100,7 @@ class Lazy:
                     seen.add(p)
                     self.paths.append(p)
         # hand-written spellings of traversal
+        hand = []
         for p in (b'/../secret.txt', b'/a/../../secret.txt', b'/./../secret.txt', b'/a/b.txt/../../../secret.txt',
                   b'/../root-evil/b.txt', b'/..%2fsecret.txt', b'/%2e%2e/secret.txt', b'/..;/secret.txt',
                   b'/a/../b.txt', b'/a/./b.txt', b'/a//b.txt', b'/b.txt?../secret.txt', b'/../root/b.txt',
@@ -111,13 +112,29 @@ class Lazy:
             if p not in seen:
                 seen.add(p)
                 self.paths.append(p)
+            hand.append(p)
         self.mcl = ['20', '100000000']
         self.root = tree()
+        # the same spellings as the SECOND request of a keep-alive connection whose first request was answered by
+        # a route plugin (static serving next to web routes): confinement does not depend on the position
+        self.follow = hand
 
     def __len__(self):
-        return len(self.paths) * len(self.mcl)
+        return len(self.paths) * len(self.mcl) + len(self.follow)
 
     def __getitem__(self, k):
+        if k >= len(self.paths) * len(self.mcl):
+            from .. import plugins
+            p = self.follow[k - len(self.paths) * len(self.mcl)]
+            first = b'GET /w/first HTTP/1.1\r\nHost: x\r\n\r\n'
+            req = b'GET ' + p + b' HTTP/1.1\r\nHost: x\r\n\r\n'
+            return Scenario('followup:%s' % p.decode('latin-1'),
+                            ['--threadless', '--enable-web-server', '--enable-static-server', '--static-server-dir', self.root,
+                             '--min-compression-length', '20'], flags_opts={'plugins': [plugins.web_stamp()]}, mode='local',
+                            clients=[dict(script=[('send', first), ('wait_idle',), ('send', req), ('wait_idle',)])], kinds='',
+                            horizon=300,
+                            features={'compress': True, 'has_dotdot': b'..' in p, 'has_query': b'?' in p, 'has_pct': b'%' in p,
+                                      'position': 'followup_after_route', '_path': p, '_root': self.root, '_followup': True})
         p = self.paths[k // len(self.mcl)]
         mcl = self.mcl[k % len(self.mcl)]
         req = b'GET ' + p + b' HTTP/1.1\r\nHost: x\r\n\r\n'
@@ -129,7 +146,12 @@ class Lazy:
                                   'has_pct': b'%' in p, '_path': p, '_root': self.root})
 
     def by_name(self, name):
-        for k in range(len(self)):
+        if name.startswith('followup:'):
+            for j, p in enumerate(self.follow):
+                if 'followup:%s' % p.decode('latin-1') == name:
+                    return self[len(self.paths) * len(self.mcl) + j]
+            return None
+        for k in range(len(self.paths) * len(self.mcl)):
             if '%s/mcl%s' % (self.paths[k // 2].decode('latin-1'), self.mcl[k % 2]) == name:
                 return self[k]
 
@@ -151,6 +173,15 @@ def check(w):
     rx = bytes(c.rx)
     p = f['_path']
     out = []
+    if f.get('_followup'):
+        # judge what follows the route plugin's answer to the first request
+        first_want = b'web:/w/first'
+        i = rx.find(b'HTTP/1.1 ', 1)
+        if first_want not in (rx if i < 0 else rx[:i]):
+            return [{'symptom': 'first_request_not_answered_by_its_route', 'features': {}, 'detail': {'rx': rx[:160]}}]
+        rx = b'' if i < 0 else rx[i:]
+        if not rx:
+            return out      # nothing at all was served for the follow-up (connection simply ended)
     detail = {'path': p, 'rx': rx[:160]}
     r = oracles.parse_response(rx, b'GET', eof=c.eof) if rx else None
     body = None
@@ -213,7 +244,8 @@ def check(w):
         if not (r and r['ok'] and status == 404):
             # plain existing files must be served, everything else must be a well-formed 404
             out.append({'symptom': 'neither_file_nor_404', 'features': {}, 'detail': dict(detail, status=status)})
-        elif inside and '..' not in raw and '%' not in raw:
+        elif inside and '..' not in raw and '%' not in raw and not f.get('_followup'):
+            # (in the follow-up position the pinned tree answers every path that names no route 404: allowed)
             norm = remove_dot_segments(raw)
             fp = os.path.join(f['_root'], norm.lstrip('/'))
             if os.path.isfile(fp) and '//' not in raw and not raw.endswith('/'):
